@@ -85,6 +85,13 @@ CHECKS = {
          "plus Hypothesis-drawn cases; both directions (accepts all well-formed, rejects every single-byte corruption).",
          "functional behaviour only, no timing; reference MACs are stdlib hmac/hashlib; SSLv3 pad==block size counted as either",
          "DESIGN.md §4 C12"),
+ "C14": ("exploration",
+         "metamorphic property-based testing: scripted sockets / API paths / record re-framing vs the baseline run of the same seed (byte-identical wire, same outcomes)",
+         "14 scenarios (handshake flavours incl. failing negotiations, client auth, HRR, SRP, tickets/NPN, followed by writes, exact reads, KeyUpdate, close) are replayed under generated schedules of per-call recv/send sizes with would-blocks and endpoint interleavings, "
+         "through AsyncStateMachine, and through the blocking API in two threads; thanks to per-endpoint DRBGs the wire bytes of both directions, view vectors, delivered data and exception classes must equal the unconstrained baseline. "
+         "An on-path re-framer splits plaintext handshake records at arbitrary points / one byte per record and outcomes must not change. Extreme schedules (1 byte per call, would-block before every call) are enumerated per scenario.",
+         "sendall() modelled as blocking-complete; wire byte-identity depends on the DRBG shim",
+         "DESIGN.md §4 C14"),
  "C15": ("exploration",
          "property-based round-trip and framing-perturbation testing over harvested and create()-generated encodings",
          "Well-formed encodings come from every handshake message sent in 16 real handshake flavours (harvested before protection, so encrypted-phase messages are included) and from create() with "
